@@ -9,7 +9,11 @@
   ghost list `core.invoked` (the failed call is one more entry there).
 
   Part 2 (registry) is about `Acn.Registry`: `dump` / `load` are the memoised post-order walk of
-  base.py; acyclicity is given by a rank function.
+  base.py; acyclicity is given by a rank function.  For the concrete per-class codec `Acn.RegistrySim`
+  (`encode` = what `to_json()` writes, `decode` = the `_from_dict`s): `decode ∘ load ∘ dump ∘ encode = id` on
+  every well-formed state (`decode_encode`, `roundtrip_resume_eq`), well-formedness is an invariant of the run
+  (`body_preserves_wf`, `reachable_wf`), hence `crash_json_resume_eq`: crash at ANY period, `to_json`,
+  `from_json`, resume = the uninterrupted run.
 
   Part 3: the regenerated attribute tables (`Gen/Serial.lean`): every stateful attribute is dumped
   and every dumped key is restored, with an explicit allow-list.
@@ -18,6 +22,10 @@ import AcnProofs.Lemmas.ResumeRun
 import AcnProofs.Lemmas.RegistryRoundtrip
 import AcnProofs.Lemmas.RegistryCodec
 import AcnProofs.Lemmas.RegistryDecode
+import AcnProofs.Lemmas.RegistryDecode5
+import AcnProofs.Lemmas.RegistryDecode6
+import AcnProofs.Lemmas.RegistryWF2
+import AcnProofs.Lemmas.RegistryLawful
 import AcnModel.Gen.Serial
 
 set_option linter.unusedSectionVars false
@@ -219,14 +227,14 @@ theorem sharing_preserved {st : Store} {root : Id} (hac : Acyclic st) (hcl : Clo
     simp [addr, this]
 
 /-
-  Full statement (not proved): with the concrete per-class codec `encode : Sim.State K → Store`,
+  Full statement: with the concrete per-class codec `encode : Sim.State K → Store`,
   `decode : Store → Id → Option (Sim.State K)` of simulator.py / charging_network.py / evse.py / ev.py /
   battery.py / event.py / event_queue.py,
       decode (load (dump (encode s))) root = some s,
-  hence `run cfg sched n (decode …) = run cfg sched n s`.
-  Proved: the statement for EVERY codec that reads only objects reachable from the root and inverts
-  `encode` — the codec-specific half (each class dumps every stateful attribute and restores every
-  dumped key) is `attrs_complete` plus the correspondence run c/d of harness/props/C09.py.
+  hence `run cfg sched n (decode …) = run cfg sched n s` — PROVED below as `roundtrip_resume_eq` (for the
+  concrete `RegistrySim.encode` / `RegistrySim.decode`, every well-formed state).
+  This theorem (kept: it is the codec-independent half): the statement for EVERY codec that reads only objects
+  reachable from the root and inverts `encode`.
 -/
 theorem roundtrip_resume_eq_partial {K : Type} [Add K] [Sub K] [Mul K] [Div K] [Neg K] [LT K] [LE K]
     [DecidableLT K] [DecidableLE K] [OfNat K 0] [OfNat K 1] [NatCast K] [HasExp K]
@@ -267,13 +275,12 @@ theorem encode_roundtrip {K : Type} (sh : RegistrySim.Show K) (cfg : Sim.Cfg K) 
     exact addr_eq_iff ((hs.reach a).2 ha) ((hs.reach b).2 hb)
 
 /-
-  Full statement `roundtrip_resume_eq` (not proved): for the decoder that follows the `_from_dict`s,
+  Full statement `roundtrip_resume_eq` (PROVED below): for the decoder that follows the `_from_dict`s,
       decode (load (dump (encode cfg s))) = some s   (for well-formed s: every event's / occupant's
       session has an EV object), hence the resumed runs are equal.
-  Proved here: the two store-level hypotheses of `roundtrip_resume_eq_partial` (acyclic, closed) hold
-  for the CONCRETE `encode`, for every state; what remains hypothetical is the decoder (it reads only
-  reachable objects and inverts `encode`).  That `encode` is what the code writes is checked against
-  `to_json()` on every crash point (harness/props/C09.py `_codec_diffs`).
+  This theorem (kept): the two store-level hypotheses of `roundtrip_resume_eq_partial` (acyclic, closed) hold
+  for the CONCRETE `encode`, for every state; the decoder is still a parameter here.  That `encode` is what the
+  code writes is checked against `to_json()` on every crash point (harness/props/C09.py `_codec_diffs`).
 -/
 theorem roundtrip_resume_eq_codec_partial {K : Type} [Add K] [Sub K] [Mul K] [Div K] [Neg K] [LT K] [LE K]
     [DecidableLT K] [DecidableLE K] [OfNat K 0] [OfNat K 1] [NatCast K] [HasExp K]
@@ -289,14 +296,15 @@ theorem roundtrip_resume_eq_codec_partial {K : Type} [Add K] [Sub K] [Mul K] [Di
     (RegistrySim.encode_acyclic sh cfg s) (RegistrySim.encode_closed sh cfg s)
 
 /-
-  Full statement (not proved): `RegistrySim.decode rd cfg amb ctx.get = some s` for the loaded store `ctx`,
-  under WF(s): every occupant and every plug-in / unplug event resolves to an EV object, `evsePilot` and `evs`
-  have the configured lengths, every EV object is referenced.  The decoder is executable and is checked on
-  every crash point in both directions (model state: `codec_inverse`; the implementation's own
+  Full statement (PROVED below: `decode_encode`, `roundtrip_resume_eq`, and for every reachable state
+  `reachable_wf`, `crash_json_resume_eq`): `RegistrySim.decode rd cfg amb ctx.get = some s` for the loaded store
+  `ctx`, under WF(s): every occupant and every plug-in / unplug event resolves to an EV object, `evsePilot` and
+  `evs` have the configured lengths, every EV object is referenced.  The decoder is executable and is also checked
+  on every crash point in both directions (model state: `codec_inverse`; the implementation's own
   `context_dict`: decoded, the model run continued from it and compared with the implementation's resumed
-  run).  Proved: the slice that carries the numbers of the property — after `to_json` → `from_json`, the
-  decoder recovers the complete EV list (per session: energy delivered, last rate, battery charge and power,
-  all static fields) from the loaded store, for every lawful scalar codec.
+  run).  This theorem (kept): the slice that carries the numbers of the property — after `to_json` →
+  `from_json`, the decoder recovers the complete EV list (per session: energy delivered, last rate, battery
+  charge and power, all static fields) from the loaded store, for every lawful scalar codec.
 -/
 theorem roundtrip_evs_decoded_partial {K : Type} {sh : RegistrySim.Show K} {rd : RegistrySim.Read K}
     (hl : RegistrySim.Lawful sh rd) (cfg : Sim.Cfg K) (s : State K)
@@ -306,6 +314,152 @@ theorem roundtrip_evs_decoded_partial {K : Type} {sh : RegistrySim.Show K} {rd :
         RegistrySim.decodeEv rd ctx.get (3 + cfg.stations.length + 2 * j)) = some s.evs := by
   obtain ⟨ctx, h1, h2, _, _, h5, _⟩ := encode_roundtrip sh cfg s
   exact ⟨ctx, h1, h2, RegistrySim.decode_evs hl cfg s ctx.get (fun i hi => h5 i (hall i hi))⟩
+
+/-! ### the concrete decoder inverts the concrete encoder (FULL statement) -/
+
+/-- DECODE ∘ ENCODE = id.  For every carrier, every lawful scalar codec (`Lawful`: the parsers invert the
+    renderings), every configuration and EVERY well-formed simulator state `s`, the executable decoder
+    `RegistrySim.decode` (the `_from_dict`s, run by the compiled driver against the implementation's own
+    `context_dict`) applied to the store that `RegistrySim.encode` writes (compared with `to_json()` on every check
+    run) returns `s` — all fields: iteration, queue, occupancy FUNCTION, `_resolve`, `_last_schedule_update`, both
+    histories, pilot and rate matrices, peak, every EV with its battery, the EVSE pilots.
+    `WF` (AcnProofs/Lemmas/RegistryDecode2.lean) is what the proof needs and no more: `evs` / `evsePilot` have the
+    configured lengths, only registered stations are occupied, an occupant is the EV object of its session, and every
+    plug-in / unplug event and `ev_history` key has an EV object.  `ambOf s` is the process-level data that does
+    not travel through JSON (scheduler-call log, position in the random stream, occupancy log). -/
+theorem decode_encode {K : Type} {sh : RegistrySim.Show K} {rd : RegistrySim.Read K}
+    (hl : RegistrySim.Lawful sh rd) (cfg : Sim.Cfg K) (s : State K) (hwf : RegistrySim.WF cfg s) :
+    RegistrySim.decode rd cfg (RegistrySim.ambOf s) (RegistrySim.encode sh cfg s).get = some s :=
+  RegistrySim.decode_of hl hwf _ (fun i hi => by rw [RegistrySim.get_encode, if_pos hi])
+
+/-- the same for ANY process-level data: decoding under `amb` gives the state with exactly those three ghost /
+    process fields replaced (`setAmb`) -/
+theorem decode_encode_amb {K : Type} {sh : RegistrySim.Show K} {rd : RegistrySim.Read K}
+    (hl : RegistrySim.Lawful sh rd) (cfg : Sim.Cfg K) (s : State K) (hwf : RegistrySim.WF cfg s)
+    (amb : RegistrySim.Ambient) :
+    RegistrySim.decode rd cfg amb (RegistrySim.encode sh cfg s).get =
+      some { s with core := { s.core with invoked := amb.invoked }, noiseIdx := amb.noiseIdx, occLog := amb.occLog } :=
+  RegistrySim.decode_of_amb hl hwf amb _ (fun i hi => by rw [RegistrySim.get_encode, if_pos hi])
+
+/-- `WF` is EXACTLY the set of states on which the concrete decoder inverts the concrete encoder: none of its
+    clauses can be dropped (an over-long `evs`, an occupant of an unregistered station, an occupant record that
+    differs from its EV object, an EV event or `ev_history` key without EV object — each makes `decode` fail or
+    return a different state). -/
+theorem decode_encode_iff {K : Type} {sh : RegistrySim.Show K} {rd : RegistrySim.Read K}
+    (hl : RegistrySim.Lawful sh rd) (cfg : Sim.Cfg K) (s : State K) :
+    RegistrySim.decode rd cfg (RegistrySim.ambOf s) (RegistrySim.encode sh cfg s).get = some s ↔
+      RegistrySim.WF cfg s :=
+  ⟨fun h => RegistrySim.wf_of_decode hl (RegistrySim.ambOf s) _
+      (fun i hi => by rw [RegistrySim.get_encode, if_pos hi]) h,
+   decode_encode hl cfg s⟩
+
+/-- ROUND TRIP + RESUME, unconditional in the decoder: for every well-formed state in which every EV object is
+    referenced (`AllRef`: by `ev_history`, an EV event in the queue or in `event_history`, or a station — an
+    unreferenced EV is not written by `to_json`), `to_json` succeeds, `from_json` rebuilds exactly the dumped
+    context, the CONCRETE decoder applied to the LOADED store returns `s`, and hence every continuation of the run
+    from the decoded state is the continuation from `s` — for every scheduler and fuel. -/
+theorem roundtrip_resume_eq {K : Type} [Add K] [Sub K] [Mul K] [Div K] [Neg K] [LT K] [LE K]
+    [DecidableLT K] [DecidableLE K] [OfNat K 0] [OfNat K 1] [NatCast K] [HasExp K]
+    {sh : RegistrySim.Show K} {rd : RegistrySim.Read K} (hl : RegistrySim.Lawful sh rd)
+    (cfg : Sim.Cfg K) (sched : View K → Except EventCore.Err (Schedule K)) (s : State K)
+    (hwf : RegistrySim.WF cfg s) (href : RegistrySim.AllRef cfg s) :
+    ∃ ctx, dump (RegistrySim.encode sh cfg s) RegistrySim.root = .ok ctx ∧ load ctx RegistrySim.root = .ok ctx ∧
+      RegistrySim.decode rd cfg (RegistrySim.ambOf s) ctx.get = some s ∧
+      ∀ n, (RegistrySim.decode rd cfg (RegistrySim.ambOf s) ctx.get).map (run cfg sched n) =
+        some (run cfg sched n s) := by
+  obtain ⟨ctx, h1, h2, _, _, h5, _⟩ := encode_roundtrip sh cfg s
+  have hd : RegistrySim.decode rd cfg (RegistrySim.ambOf s) ctx.get = some s :=
+    RegistrySim.decode_of hl hwf ctx.get (fun i hi => h5 i (RegistrySim.reach_all sh cfg s href i hi))
+  exact ⟨ctx, h1, h2, hd, fun n => by rw [hd]; rfl⟩
+
+/-- `WF` is an invariant: ONE period of the full model, whatever the scheduler and the pilot application do
+    (return, raise `SchedulerFailed`, reject the schedule, `InvalidRateError`, …), keeps `SInv` — static EV data
+    fixed, one pilot per EVSE, every reference resolvable in the session table, every session referenced —
+    provided the events stage itself does not raise (a raising `_process_event` drops the events popped after
+    it, and with them the last reference to their EVs: then `to_json` really loses those EVs). -/
+theorem body_preserves_wf {K : Type} [Add K] [Sub K] [Mul K] [Div K] [Neg K] [LT K] [LE K]
+    [DecidableLT K] [DecidableLE K] [OfNat K 0] [OfNat K 1] [NatCast K] [HasExp K]
+    (cfg : Sim.Cfg K) (sched : View K → Except EventCore.Err (Schedule K)) {s : State K}
+    (h : RegistrySim.SInv cfg s) (hid : (cfg.core.sessions.map (·.id)).Nodup)
+    (hok : (EventCore.eventsStage cfg.core s.core).2 = none) :
+    RegistrySim.SInv cfg (body cfg sched s).1 ∧ RegistrySim.WF cfg (body cfg sched s).1 ∧
+      RegistrySim.AllRef cfg (body cfg sched s).1 := by
+  have hb := RegistrySim.body_sinv cfg sched h hid hok
+  exact ⟨hb, hb.wf hid, hb.allRef hid⟩
+
+/-- EVERY state that `Simulator.run` can leave behind in a `Valid` scenario (C01's hypothesis) — completed, out of
+    fuel, or aborted in any period by the scheduler, by `_update_schedules` or by `update_pilots` — is
+    well-formed and has every EV referenced: for every scheduler and every fuel. -/
+theorem reachable_wf {K : Type} [Add K] [Sub K] [Mul K] [Div K] [Neg K] [LT K] [LE K]
+    [DecidableLT K] [DecidableLE K] [OfNat K 0] [OfNat K 1] [NatCast K] [HasExp K]
+    (cfg : Sim.Cfg K) (sched : View K → Except EventCore.Err (Schedule K)) (hv : Valid cfg.core) (n : Nat) :
+    RegistrySim.WF cfg (run cfg sched n (Sim.init cfg)).1 ∧ RegistrySim.AllRef cfg (run cfg sched n (Sim.init cfg)).1 := by
+  have h := RegistrySim.run_sinv cfg sched hv n 0 (Sim.init cfg) (init_inv hv) (RegistrySim.init_sinv cfg)
+  exact ⟨h.wf hv.ids_nodup, h.allRef hv.ids_nodup⟩
+
+/-- THE PROPERTY, JSON half included: in a `Valid` scenario, for EVERY crash period `k`, fuel `n`, scheduler and
+    lawful scalar codec, the state `r1.1` left by the interrupted run can be written (`to_json`), loaded
+    (`from_json`) and decoded, the decoded state IS `r1.1`, and either the failure never fired (the run is the
+    uninterrupted one) or resuming from the DECODED state yields the uninterrupted run's outcome (`ObsEqR`: same
+    error if any, same pilots, rates, peak, energies, batteries, histories, iteration — `obsEq_fields`). -/
+theorem crash_json_resume_eq {K : Type} [Add K] [Sub K] [Mul K] [Div K] [Neg K] [LT K] [LE K]
+    [DecidableLT K] [DecidableLE K] [OfNat K 0] [OfNat K 1] [NatCast K] [HasExp K]
+    {sh : RegistrySim.Show K} {rd : RegistrySim.Read K} (hl : RegistrySim.Lawful sh rd)
+    (cfg : Sim.Cfg K) (sched : View K → Except EventCore.Err (Schedule K)) (hv : Valid cfg.core) (k n : Nat) :
+    let r1 := run cfg (failAt k sched) n (Sim.init cfg)
+    ∃ ctx s', dump (RegistrySim.encode sh cfg r1.1) RegistrySim.root = .ok ctx ∧
+      load ctx RegistrySim.root = .ok ctx ∧
+      RegistrySim.decode rd cfg (RegistrySim.ambOf r1.1) ctx.get = some s' ∧ s' = r1.1 ∧
+      (r1 = run cfg sched n (Sim.init cfg) ∨
+       (r1.2 = some EventCore.Err.schedulerFailed ∧ r1.1.core.iter = k ∧
+        ObsEqR (run cfg sched (n - k) s') (run cfg sched n (Sim.init cfg)))) := by
+  intro r1
+  obtain ⟨hwf, href⟩ := reachable_wf cfg (failAt k sched) hv n
+  obtain ⟨ctx, h1, h2, h3, _⟩ := roundtrip_resume_eq hl cfg sched r1.1 hwf href
+  refine ⟨ctx, r1.1, h1, h2, h3, rfl, ?_⟩
+  have hS : SessionsOK cfg.core := ⟨hv.ids_nodup, fun x hx => ⟨hv.arr_nonneg x hx, hv.arr_lt_dep x hx⟩⟩
+  exact resume_eq cfg sched hS k n
+
+/-! #### non-vacuity: the crash state of `exCfg` above (plug-in, unplug and recompute events pending, one station
+    occupied, one EV referenced only by its pending PluginEvent) -/
+section ExamplesWF
+local instance : HasExp ℚ := ⟨fun _ => 1⟩
+
+theorem exCfg_valid : Valid exCfg.core := by
+  constructor <;> simp [exCfg, exEv, Sim.Cfg.core, sessionOf]
+
+example : RegistrySim.WF exCfg (run exCfg (failAt 1 exSched) 6 (Sim.init exCfg)).1 ∧
+    RegistrySim.AllRef exCfg (run exCfg (failAt 1 exSched) 6 (Sim.init exCfg)).1 :=
+  reachable_wf exCfg (failAt 1 exSched) exCfg_valid 6
+-- the state is not trivial: session `a` is connected, `b`'s plug-in has been processed in period 1 too
+example : ((run exCfg (failAt 1 exSched) 6 (Sim.init exCfg)).1.core.occ "S0").map (·.id) = some "a" ∧
+    (run exCfg (failAt 1 exSched) 6 (Sim.init exCfg)).1.core.evHist = ["a", "b"] ∧
+    (run exCfg (failAt 1 exSched) 6 (Sim.init exCfg)).1.core.eventHist.length = 2 := by decide +kernel
+-- a lawful scalar codec exists (over ℚ), so the whole chain applies to the crash state above: written, loaded,
+-- decoded by the concrete decoder, resumed
+example : RegistrySim.Lawful RegistrySim.exShow RegistrySim.exRead := RegistrySim.exLawful
+example : ∃ ctx s', dump (RegistrySim.encode RegistrySim.exShow exCfg (run exCfg (failAt 1 exSched) 6 (Sim.init exCfg)).1)
+      RegistrySim.root = .ok ctx ∧ load ctx RegistrySim.root = .ok ctx ∧
+    RegistrySim.decode RegistrySim.exRead exCfg (RegistrySim.ambOf (run exCfg (failAt 1 exSched) 6 (Sim.init exCfg)).1)
+      ctx.get = some s' ∧
+    ObsEqR (run exCfg exSched (6 - 1) s') (run exCfg exSched 6 (Sim.init exCfg)) := by
+  obtain ⟨ctx, s', h1, h2, h3, _, h5⟩ := crash_json_resume_eq RegistrySim.exLawful exCfg exSched exCfg_valid 1 6
+  refine ⟨ctx, s', h1, h2, h3, ?_⟩
+  rcases h5 with h5 | ⟨_, _, h5⟩
+  · have : (run exCfg (failAt 1 exSched) 6 (Sim.init exCfg)).2 = some EventCore.Err.schedulerFailed := by decide +kernel
+    rw [h5] at this
+    have h6 : (run exCfg exSched 6 (Sim.init exCfg)).2 = none := by decide +kernel
+    rw [h6] at this
+    cases this
+  · exact h5
+-- a state that is NOT well-formed: an occupant whose session has no EV object
+example : ¬ RegistrySim.WF exCfg
+    { Sim.init exCfg with core := { (Sim.init exCfg).core with occ := fun _ => some ⟨"zz", "S0", 0, 1⟩ } } := by
+  intro h
+  have := h.occEv "S0" _ rfl
+  revert this
+  decide +kernel
+end ExamplesWF
 
 /-! ### non-vacuity: an EV shared by its station, `ev_history` and its pending UnplugEvent -/
 
